@@ -1,4 +1,4 @@
-import Sucds.Props.C14
+import Sucds.Proofs.C14Pop
 /-! C14, continued: `lsb` and `msb` for every configuration. -/
 set_option linter.unusedSimpArgs false
 set_option linter.unusedVariables false
